@@ -146,11 +146,11 @@ theorem shift_core (hc : cfg.Plain c) (hcp : cfg.copy = false) (hmc : cfg.mergeC
     (hml : cfg.mergeLeaves = false)
     (t : Tree) (k : Nat) (fpar tpar : List Str) (l : Str) (F : Tree)
     (hu : SibUnique t) (hk : ∀ e ∈ flat t, e.2.1 < k)
-    (hgf : GoodNames c (t.name :: fpar ++ [l])) (hgt : GoodNames c (t.name :: tpar ++ [l]))
-    (hF : getRel (fpar ++ [l]) t = some F) (hD : getRel (tpar ++ [l]) t = none)
+    (fs : Str) (hfr : FromOK cfg t fs (fpar ++ [l]) F l) (hgt : GoodNames c (t.name :: tpar ++ [l]))
+    (hD : getRel (tpar ++ [l]) t = none)
     (hin : (fpar ++ [l]).isPrefixOf tpar = false) :
     ∃ t' k', copyOrShift cfg (st0 t k)
-        [(pathStr c t.name (fpar ++ [l]), some (pathStr c t.name (tpar ++ [l])))] = .ok (st0 t' k') ∧
+        [(fs, some (pathStr c t.name (tpar ++ [l])))] = .ok (st0 t' k') ∧
       k ≤ k' ∧ SibUnique t' ∧
       (flat t').filter (under (tpar ++ [l]))
         = (flat (stripIf cfg.deleteChildren F)).map (rebase (tpar ++ [l])) ∧
@@ -159,6 +159,7 @@ theorem shift_core (hc : cfg.Plain c) (hcp : cfg.copy = false) (hmc : cfg.mergeC
       (∀ e ∈ flat t', ¬ e.2.1 < k → e.1.isPrefixOf tpar = true ∧ e.2.1 < k' ∧ e.2.2 = []) ∧
       (∀ q, q.isPrefixOf tpar = true → q ∈ paths t') := by
   have hfpne : fpar ++ [l] ≠ [] := by simp
+  have hF := hfr.found
   obtain ⟨t1, k1, hgrow, hsu1, hkk, hold, hnew, hpaths⟩ :=
     grow_facts (ns := tpar) (goodNames_ne (goodNames_mid hgt)) hu hk
   -- the from-node after the parent path has been created
@@ -204,13 +205,11 @@ theorem shift_core (hc : cfg.Plain c) (hcp : cfg.copy = false) (hmc : cfg.mergeC
   refine ⟨modifyAt tpar (appendKid (stripIf cfg.deleteChildren F1)) (removeAt (fpar ++ [l]) T0), k1, ?_, hkk,
     hsu2.appendAt hP2 hFmu hnewkid, ?_, ?_, ?_, ?_⟩
   · -- the call computes this tree
-    have hgf' : GoodNames c (t.name :: (fpar ++ [l])) := by simpa using hgf
     have hgt' : GoodNames c (t.name :: (tpar ++ [l])) := by simpa using hgt
-    rw [copyOrShift_single _ _ (valid_move hc t k fpar tpar l (by simp [hmc]) hgf hgt)]
-    simp only [norm, normFrom_pathStr hc _ _ hgf', normTo_pathStr hc _ _ hgt']
+    rw [copyOrShift_single _ _ (valid_move hc (st0 t k) fs (fpar ++ [l]) F tpar l (by simp [hmc]) hfr hgt)]
+    simp only [norm, hfr.norm, normTo_pathStr hc _ _ hgt']
     unfold step
-    have hr := resolveFrom_pathStr hc (st0 t k) (fpar ++ [l]) (by simpa using hgf')
-    simp only [st0_tree, hF, Option.map_some] at hr
+    have hr := resolveFrom_of (st0 t k) hfr
     simp only [hr, decideTo_missing hc t k (fpar ++ [l]) tpar l hgt hD hgrow, attach, hmc,
       Option.isNone_none, if_true, hF1, Option.getD_some, Option.isSome_some, hcp, Bool.not_false,
       Bool.and_true, hml, attachNode, loops, hin, Bool.and_false, Bool.false_eq_true,
@@ -338,11 +337,11 @@ theorem copy_core (hc : cfg.Plain c) (hcp : cfg.copy = true) (hmc : cfg.mergeChi
     (hml : cfg.mergeLeaves = false)
     (src : Option Tree) (t : Tree) (k : Nat) (fpar tpar : List Str) (l : Str) (F : Tree)
     (hu : SibUnique t) (hus : SibUnique (src.getD t)) (hk : ∀ e ∈ flat t, e.2.1 < k)
-    (hgf : GoodNames c ((src.getD t).name :: fpar ++ [l])) (hgt : GoodNames c (t.name :: tpar ++ [l]))
-    (hF : getRel (fpar ++ [l]) (src.getD t) = some F) (hD : getRel (tpar ++ [l]) t = none)
+    (fs : Str) (hfrom : FromOK cfg (src.getD t) fs (fpar ++ [l]) F l) (hgt : GoodNames c (t.name :: tpar ++ [l]))
+    (hD : getRel (tpar ++ [l]) t = none)
     (hin : src = none → (fpar ++ [l]).isPrefixOf tpar = false) :
     ∃ t' k', copyOrShift cfg ⟨src, t, k⟩
-        [(pathStr c (src.getD t).name (fpar ++ [l]), some (pathStr c t.name (tpar ++ [l])))]
+        [(fs, some (pathStr c t.name (tpar ++ [l])))]
           = .ok ⟨src, t', k'⟩ ∧
       k ≤ k' ∧ SibUnique t' ∧
       shape ((flat t').filter (under (tpar ++ [l])))
@@ -352,6 +351,7 @@ theorem copy_core (hc : cfg.Plain c) (hcp : cfg.copy = true) (hmc : cfg.mergeChi
       (∀ e ∈ flat t', ¬ e.2.1 < k → under (tpar ++ [l]) e = false →
           e.1.isPrefixOf tpar = true ∧ e.2.1 < k' ∧ e.2.2 = []) ∧
       (∀ q, q.isPrefixOf tpar = true → q ∈ paths t') := by
+  have hF := hfrom.found
   obtain ⟨t1, k1, hgrow, hsu1, hkk, hold, hnew, hpaths⟩ :=
     grow_facts (ns := tpar) (goodNames_ne (goodNames_mid hgt)) hu hk
   -- the object that is copied: the from-node as it is after the parent path has been created
@@ -385,26 +385,12 @@ theorem copy_core (hc : cfg.Plain c) (hcp : cfg.copy = true) (hmc : cfg.mergeChi
       (sibUnique_stripIf (r5 hF1u)) (by rw [stripIf_name, r1, hF1n]) hXid
   refine ⟨modifyAt tpar (appendKid (stripIf cfg.deleteChildren (relabel k1 F1).1)) t1, (relabel k1 F1).2, ?_,
     by omega, hsu', ?_, ?_, hfr, ?_, hpre⟩
-  · have hgf' : GoodNames c ((src.getD t).name :: (fpar ++ [l])) := by simpa using hgf
-    have hgt' : GoodNames c (t.name :: (tpar ++ [l])) := by simpa using hgt
-    have hv : valid cfg ⟨src, t, k⟩
-        [(pathStr c (src.getD t).name (fpar ++ [l]), some (pathStr c t.name (tpar ++ [l])))] = true := by
-      apply valid_single
-      · simp [hmc]
-      · cases hp : pathStr c t.name (tpar ++ [l]) with
-        | nil => exact absurd hp (pathStr_ne_nil _ _)
-        | cons x xs => simp [isDelete]
-      · simp only [norm, normFrom_pathStr hc _ _ hgf', normTo_pathStr hc _ _ hgt']
-        exact nameOk_pathStr hc _ _ _ _ _ hgf hgt
-      · simp only [norm, normFrom_pathStr hc _ _ hgf', St.tree]
-        exact fromRootOk_pathStr hc _ _ _ hgf'
-      · simp only [norm, normTo_pathStr hc _ _ hgt']
-        exact toRootOk_pathStr hc _ _ _ hgt'
+  · have hgt' : GoodNames c (t.name :: (tpar ++ [l])) := by simpa using hgt
+    have hv := valid_move hc ⟨src, t, k⟩ fs (fpar ++ [l]) F tpar l (by simp [hmc]) hfrom hgt
     rw [copyOrShift_single _ _ hv]
-    simp only [norm, normFrom_pathStr hc _ _ hgf', normTo_pathStr hc _ _ hgt']
+    simp only [norm, hfrom.norm, normTo_pathStr hc _ _ hgt']
     unfold step
-    have hr := resolveFrom_pathStr hc ⟨src, t, k⟩ (fpar ++ [l]) (by simpa [St.tree] using hgf')
-    simp only [St.tree, hF, Option.map_some] at hr
+    have hr := resolveFrom_of ⟨src, t, k⟩ hfrom
     have hdec : decideTo cfg ⟨src, t, k⟩ (fpar ++ [l]) (some (pathStr c t.name (tpar ++ [l])))
         = .ok ⟨t1, k1, some tpar, cfg.mergeChildren⟩ := by
       unfold decideTo
@@ -497,18 +483,19 @@ theorem over_core (hc : cfg.Plain c) (hcp : cfg.copy = false) (hmc : cfg.mergeCh
     (hml : cfg.mergeLeaves = false) (hov : cfg.overriding = true)
     (t : Tree) (k : Nat) (fpar tpar : List Str) (l : Str) (F D : Tree)
     (hu : SibUnique t)
-    (hgf : GoodNames c (t.name :: fpar ++ [l])) (hgt : GoodNames c (t.name :: tpar ++ [l]))
-    (hF : getRel (fpar ++ [l]) t = some F) (hD : getRel (tpar ++ [l]) t = some D)
+    (fs : Str) (hfr : FromOK cfg t fs (fpar ++ [l]) F l) (hgt : GoodNames c (t.name :: tpar ++ [l]))
+    (hD : getRel (tpar ++ [l]) t = some D)
     (h1 : (fpar ++ [l]).isPrefixOf (tpar ++ [l]) = false)
     (h2 : (tpar ++ [l]).isPrefixOf (fpar ++ [l]) = false) :
     ∃ t', copyOrShift cfg (st0 t k)
-        [(pathStr c t.name (fpar ++ [l]), some (pathStr c t.name (tpar ++ [l])))] = .ok (st0 t' k) ∧
+        [(fs, some (pathStr c t.name (tpar ++ [l])))] = .ok (st0 t' k) ∧
       SibUnique t' ∧
       (flat t').filter (under (tpar ++ [l]))
         = (flat (stripIf cfg.deleteChildren F)).map (rebase (tpar ++ [l])) ∧
       (flat t').filter (fun e => !under (tpar ++ [l]) e)
         = (flat t).filter (fun e => !under (tpar ++ [l]) e && !under (fpar ++ [l]) e) := by
   have hfpne : fpar ++ [l] ≠ [] := by simp
+  have hF := hfr.found
   have htpne : tpar ++ [l] ≠ [] := by simp
   -- the old destination is detached
   have hsu1 : SibUnique (removeAt (tpar ++ [l]) t) := hu.removeAt
@@ -549,13 +536,11 @@ theorem over_core (hc : cfg.Plain c) (hcp : cfg.copy = false) (hmc : cfg.mergeCh
   obtain ⟨t', hatt, hsu', hmoved, hrest⟩ :=
     move_facts cfg.deleteChildren hfpne hsu1 hF1 (getRel_name hF1) htpar hin hfree
   refine ⟨t', ?_, hsu', ?_, ?_⟩
-  · have hgf' : GoodNames c (t.name :: (fpar ++ [l])) := by simpa using hgf
-    have hgt' : GoodNames c (t.name :: (tpar ++ [l])) := by simpa using hgt
-    rw [copyOrShift_single _ _ (valid_move hc t k fpar tpar l (by simp [hmc]) hgf hgt)]
-    simp only [norm, normFrom_pathStr hc _ _ hgf', normTo_pathStr hc _ _ hgt']
+  · have hgt' : GoodNames c (t.name :: (tpar ++ [l])) := by simpa using hgt
+    rw [copyOrShift_single _ _ (valid_move hc (st0 t k) fs (fpar ++ [l]) F tpar l (by simp [hmc]) hfr hgt)]
+    simp only [norm, hfr.norm, normTo_pathStr hc _ _ hgt']
     unfold step
-    have hr := resolveFrom_pathStr hc (st0 t k) (fpar ++ [l]) (by simpa using hgf')
-    simp only [st0_tree, hF, Option.map_some] at hr
+    have hr := resolveFrom_of (st0 t k) hfr
     have hne : (fpar ++ [l] == tpar ++ [l]) = false := by
       cases h : (fpar ++ [l] == tpar ++ [l]) with
       | false => rfl
